@@ -185,12 +185,14 @@ def check(ctx, rule, name):
     res = list(compare(ent['exits'], actual))
     strict_fail = [(kind, desc, detail) for ok, kind, desc, detail in res if not ok]
     lostf = []
+    byp = []
     if strict_fail:
         # the description differs from the reviewed one.  A deviation is reported only if a reviewed decision, result or effect is
         # no longer made by the function (engine.facts): a re-arrangement (loop <-> adaptor, combinators, flags, helper
         # boundaries) loses nothing; a removed / weakened check, a changed operand or a dropped effect does.
         from . import facts as _facts
         lostf, nr, na = _facts.lost(ent['exits'], actual)
+        byp = _facts.bypassed(ent['exits'], actual)
         ctx.note('%s: %d of %d reviewed entries differ in shape; %d of %d reviewed facts lost' % (name, len(strict_fail), len(res), len(lostf), nr))
     for ok, kind, desc, detail in res:
         n += 1
@@ -205,6 +207,20 @@ def check(ctx, rule, name):
             ctx.ob(rule, name, 'reviewed fact kept: %s' % short(_facts.render(f), 260), False,
                    problem='the function no longer makes this reviewed decision / produces this result / performs this effect',
                    shape_differences=['%s: %s' % (k, short(d, 160)) for k, d, _ in strict_fail[:4]])
+        for lab in sorted(set(_facts.new_values(ent['exits'], actual))):
+            n += 1
+            ctx.ob(rule, name, 'returned value is computed as reviewed: %s' % short(lab, 200), False,
+                   problem='a successful / value-returning exit computes its result differently from every reviewed one (alternative operands, other arguments)')
+        seen_b = set()
+        for g, f, lab in byp:
+            key = (g, f)
+            if key in seen_b:
+                continue
+            seen_b.add(key)
+            n += 1
+            ctx.ob(rule, name, 'every %s passes the reviewed %s' % (g, short(_facts.render(f), 220)), False,
+                   problem='a way to succeed / perform this effect exists that does not pass a decision which every reviewed way passed',
+                   bypassing=short(lab, 160))
     for o in ent.get('order', []):
         n += 1
         a, _, bname = o.partition(' before ')
